@@ -26,6 +26,11 @@ is then the exact answer, and it is demanded without any tolerance from
     crossing parity of a ray that meets no vertex) for every point not exactly on a ring;
   * GeoSeries.intersects == the array form.
 
+The scalar shape really STORES its coordinates in the other subtype: it is built by the public
+constructor from numpy arrays of that dtype or from a typed zero-offset arrow scalar (an element
+taken out of a list-geometry array is rebuilt by the library from Python numbers and arrives as
+float64 / int64 whatever the array's subtype; that route is added in the thorough tier).
+
 Shapes of the six kinds: points / multipoints on the values next to the other side's extra
 values, lines along and across the cluster axis (zero-length segments, the bounding box ending
 exactly at a near-tie), rectangles / triangles / a rectangle with a hole whose edges lie on
